@@ -51,7 +51,7 @@ Record calm (s : state) : Prop := {
   cm_parent : parent_cancel s = false;
   cm_own : own_cancel s = false;
   cm_sd : sd s = SdNot;
-  cm_main : match main s with MLaunch _ | MGate _ | MGateCheck _ | MReap => True | _ => False end;
+  cm_main : match main s with MNew | MEntering | MLaunch _ | MGate _ | MGateCheck _ | MReap => True | _ => False end;
   cm_strig : forall i, get 0 (strig (aux s)) i = 0;
   cm_callers : forall k o cs, In (k, o, cs) (callers s) -> benign_op o;
 }.
